@@ -1,3 +1,4 @@
+#[cfg(not(ruma_ruma_verif))]
 use std::{
     borrow::Borrow,
     cmp::{Ordering, Reverse},
@@ -5,6 +6,17 @@ use std::{
     hash::Hash,
     sync::OnceLock,
 };
+#[cfg(ruma_ruma_verif)]
+use std::{
+    borrow::Borrow,
+    cmp::{Ordering, Reverse},
+    collections::BinaryHeap,
+    hash::Hash,
+    sync::OnceLock,
+};
+
+#[cfg(ruma_ruma_verif)]
+use self::verif_order::{HashMap, HashSet};
 
 use js_int::Int;
 use ruma_common::{
@@ -18,6 +30,8 @@ pub mod event_auth;
 pub mod events;
 #[cfg(test)]
 mod test_utils;
+#[cfg(ruma_ruma_verif)]
+pub mod verif_order;
 
 use self::events::{
     member::RoomMemberEvent, power_levels::RoomPowerLevelsEventOptionExt, RoomCreateEvent,
